@@ -757,6 +757,19 @@ func (w *Worker) mathFn(s *State, fn string, args []Value) (Value, bool) {
 		if ok1 && ok2 {
 			return floatConst(math.Nextafter(fa, fb)), true
 		}
+		// symbolic x towards +MaxFloat64: over-approximated by a fresh y with x < y <= x + |x|*2^-50
+		// (or y tiny when x is 0); NaN and +Inf map to themselves. Sound for upper/lower-bound claims.
+		if ok2 && fb == math.MaxFloat64 {
+			if x, ok := toFP(args[0]); ok {
+				s.job.stub("math.Nextafter(x, MaxFloat64) over-approximated by a fresh value in (x, x+|x|*2^-50]")
+				y := w.fresh(s, "nextafter", FP)
+				special := Or(FIsNaN(x), And(FIsInf(x), FCmpT("fp.lt", FConstT(0), x)))
+				up := FBin("fp.add", x, FBin("fp.mul", FUn("fp.abs", x), FConstT(math.Ldexp(1, -50))))
+				normal := And(FCmpT("fp.lt", x, y), Or(FCmpT("fp.leq", y, up), FCmpT("fp.leq", y, FConstT(1e-300))))
+				w.assume(s, Or(And(special, Or(And(FIsNaN(x), FIsNaN(y)), FCmpT("fp.eq", x, y))), And(Not(special), normal)))
+				return y, true
+			}
+		}
 	case "Float64bits":
 		if fa, ok := concreteFloat(args[0]); ok {
 			return BV(64, math.Float64bits(fa)), true
